@@ -11,13 +11,14 @@ import sys
 root, ids = sys.argv[1], sys.argv[2:]
 props = {json.loads(l)["id"]: json.loads(l) for l in open("/verif/properties.jsonl")}
 tmpl = open("/verif/tools/seed_prompt.txt").read()
-IDEAS = ("Ideas that have NOT been used much: behaviour that differs for the SECOND instance of a class or the second storage / handler object "
-         "(class-level vs instance-level state that is not a cache); operations in an unusual but legal order (close before connect, end before "
-         "begin, the same message twice, both timeslots interleaved); an error path that leaves partial state behind; an observer / callback that "
-         "calls back into the object; inputs with extra trailing octets or exactly one octet too short; legal negative, float or very large "
-         "values; dependence on dict / set iteration order, locale, time zone or time of day; a value that is legal in one field but collides with "
-         "a sentinel (None, 0, -1, empty) used on another path; a documented default that changes only when an optional argument is passed "
-         "positionally; arithmetic done in floats instead of integers near a power of two. Whatever you choose must violate the STATEMENT.\n")
+IDEAS = ("Ideas that have NOT been used much: `x or default` where 0 / empty / False is a legal value; a numeric field above 255 or 65535 written or read "
+         "with the wrong byte order or as a signed number; the LAST field / element / octet sliced one short; truncation where rounding is meant "
+         "(or the reverse) for negative numbers; inclusive vs exclusive bounds in a validation that rejects a legal extreme; two optional parts "
+         "both present or both absent; the boundary between two length encodings; an enumeration alias or two members with the same value; "
+         "a returned list / dict that is the internal one (caller edits it, next call sees it); a stored zip / map / generator object used twice; "
+         "an exception swallowed by a broad except so that a wrong default is returned; comparison by identity where equality is meant (small "
+         "ints and interned strings hide it); isinstance checks that exclude a subclass or bool-vs-int; state that survives an exception raised "
+         "half way through an operation. Whatever you choose must violate the STATEMENT.\n")
 for pid in ids:
     wt = f"{root}/{pid}"
     subprocess.run(["git", "-C", "/repo", "worktree", "add", "--detach", "-q", wt, "HEAD"], check=True)
@@ -28,7 +29,7 @@ for pid in ids:
         m = json.load(open(f))
         tried.append(f"- in {m['files'][0]}: a change that needs: {m['needs_to_manifest']}")
     extra = ("\n\nAlready tried in earlier rounds (do NOT repeat these mechanisms or close variants; caching / memoisation, shared buffers, shared "
-             "defaults, bitarray endianness, in-place edits of caller buffers, stripped text edges and plain off-by-one at a field maximum have been "
+             "defaults, bitarray endianness, in-place edits of caller buffers, stripped text edges, class-level tables updated in place, sentinel collisions of 0 / midnight, tolerant verifiers and plain off-by-one at a field maximum have been "
              "done):\n" + "\n".join(tried) + "\n" + IDEAS)
     open(f"{wt}/_seed/TASK.md", "w").write(tmpl.replace("{WT}", wt) + extra)
 print("prepared", ids)
